@@ -239,3 +239,175 @@ pub fn par_each<C: Sync>(r: &mut vcommon::Report, cells: &[C], f: impl Fn(&C, &m
         }
     }
 }
+
+/// A counting global allocator (C09: "does the live heap keep growing?"). The type lives here, the
+/// `#[global_allocator]` static is declared by the monitor binary that wants it (c09.rs), so the
+/// other users of this file keep the system allocator.
+///
+/// Counters are striped per thread (a thread picks its stripe on first use; a `const` thread-local
+/// without a destructor, so the allocator never allocates or registers anything itself) to keep the
+/// heavily threaded sections from serialising on one cache line. `live_bytes` sums the stripes: a
+/// block freed by another thread than the one that allocated it makes single stripes negative, the
+/// sum is exact once the threads are quiescent.
+pub mod heap {
+    use std::{
+        alloc::{GlobalAlloc, Layout, System},
+        cell::Cell,
+        sync::atomic::{AtomicI64, AtomicU64, AtomicUsize, Ordering},
+    };
+
+    const STRIPES: usize = 64;
+
+    #[repr(align(128))]
+    struct Stripe {
+        live: AtomicI64,
+        calls: AtomicU64,
+    }
+
+    static TABLE: [Stripe; STRIPES] = [const {
+        Stripe {
+            live: AtomicI64::new(0),
+            calls: AtomicU64::new(0),
+        }
+    }; STRIPES];
+    static NEXT: AtomicUsize = AtomicUsize::new(0);
+
+    thread_local! {
+        static SLOT: Cell<usize> = const { Cell::new(usize::MAX) };
+    }
+
+    #[inline]
+    fn stripe() -> &'static Stripe {
+        let i = SLOT
+            .try_with(|s| {
+                let mut i = s.get();
+                if i == usize::MAX {
+                    i = NEXT.fetch_add(1, Ordering::Relaxed) % STRIPES;
+                    s.set(i);
+                }
+                i
+            })
+            .unwrap_or(0);
+        &TABLE[i]
+    }
+
+    #[inline]
+    fn add(delta: i64, call: bool) {
+        let s = stripe();
+        s.live.fetch_add(delta, Ordering::Relaxed);
+        if call {
+            s.calls.fetch_add(1, Ordering::Relaxed);
+        }
+    }
+
+    pub struct Counting;
+
+    unsafe impl GlobalAlloc for Counting {
+        unsafe fn alloc(&self, l: Layout) -> *mut u8 {
+            let p = System.alloc(l);
+            if !p.is_null() {
+                add(l.size() as i64, true);
+            }
+            p
+        }
+
+        unsafe fn alloc_zeroed(&self, l: Layout) -> *mut u8 {
+            let p = System.alloc_zeroed(l);
+            if !p.is_null() {
+                add(l.size() as i64, true);
+            }
+            p
+        }
+
+        unsafe fn dealloc(&self, p: *mut u8, l: Layout) {
+            System.dealloc(p, l);
+            add(-(l.size() as i64), false);
+        }
+
+        unsafe fn realloc(&self, p: *mut u8, l: Layout, new_size: usize) -> *mut u8 {
+            let q = System.realloc(p, l, new_size);
+            if !q.is_null() {
+                add(new_size as i64 - l.size() as i64, true);
+            }
+            q
+        }
+    }
+
+    /// Bytes currently allocated and not freed, process-wide.
+    pub fn live_bytes() -> i64 {
+        TABLE.iter().map(|s| s.live.load(Ordering::Relaxed)).sum()
+    }
+
+    /// Number of allocation calls so far (alloc / alloc_zeroed / realloc), process-wide.
+    pub fn alloc_calls() -> u64 {
+        TABLE.iter().map(|s| s.calls.load(Ordering::Relaxed)).sum()
+    }
+
+    /// Has the counting allocator seen anything (i.e. is it the process's global allocator)?
+    pub fn installed() -> bool {
+        alloc_calls() > 0
+    }
+}
+
+/// A gate that lets exactly one waiter through per ticket: `pass` blocks until a ticket is there
+/// and consumes it. Lets a scenario allow a parked processor exactly one more batch.
+#[derive(Clone)]
+pub struct TicketGate(Arc<(Mutex<TicketState>, Condvar)>);
+
+#[derive(Default)]
+struct TicketState {
+    tickets: u64,
+    open: bool,
+    arrivals: u64,
+}
+
+impl TicketGate {
+    pub fn new() -> Self {
+        TicketGate(Arc::new((Mutex::new(TicketState::default()), Condvar::new())))
+    }
+
+    pub fn pass(&self) {
+        let mut g = (self.0).0.lock().unwrap();
+        g.arrivals += 1;
+        (self.0).1.notify_all();
+        loop {
+            if g.open {
+                return;
+            }
+            if g.tickets > 0 {
+                g.tickets -= 1;
+                return;
+            }
+            g = (self.0).1.wait(g).unwrap();
+        }
+    }
+
+    pub fn ticket(&self) {
+        (self.0).0.lock().unwrap().tickets += 1;
+        (self.0).1.notify_all();
+    }
+
+    /// From now on everybody passes.
+    pub fn open(&self) {
+        (self.0).0.lock().unwrap().open = true;
+        (self.0).1.notify_all();
+    }
+
+    pub fn arrivals(&self) -> u64 {
+        (self.0).0.lock().unwrap().arrivals
+    }
+
+    /// Wait (bounded, watchdog only) until at least `n` arrivals were seen. False on expiry.
+    pub fn wait_arrivals(&self, n: u64, watchdog: Duration) -> bool {
+        let mut g = (self.0).0.lock().unwrap();
+        let start = std::time::Instant::now();
+        while g.arrivals < n {
+            let left = match watchdog.checked_sub(start.elapsed()) {
+                Some(l) if l > Duration::ZERO => l,
+                _ => return false,
+            };
+            g = (self.0).1.wait_timeout(g, left).unwrap().0;
+        }
+        true
+    }
+}
